@@ -59,21 +59,21 @@ const std::string kCommon = "seeded block-tree histories on a real regtest node:
 
 Engine g_c08 = Make("C08", "nodesim/chain-most-work", GenBias<kC08>, RunC08,
                     kCommon + "C08 bias: 20-60% forks, every defect kind, header-first and withheld deliveries, manual invalidation.",
-                    {"reorg", "reorg_depth_ge_3", "invalidateblock", "reconsiderblock", "node_rejected_block", "model_invalid_block", "duplicate_delivery"}, 700, 30000);
+                    {"reorg", "reorg_depth_ge_3", "invalidateblock", "reconsiderblock", "node_rejected_block", "model_invalid_block", "duplicate_delivery"}, 2500, 60000);
 Engine g_c01 = Make("C01", "nodesim/chain-supply", GenBias<kC01>, RunC01,
                     kCommon + "C01 bias: value defects (coinbase +1 sat, in<out by 1 sat, output > MAX_MONEY, negative output, output-sum overflow), exact-claim coinbases, histories crossing the halving at 150; "
                               "UTXO set compared coin-for-coin with the model after every tip change and its total against the subsidy sum.",
-                    {"defect_cb_overpay", "defect_in_below_out", "halving_crossed", "utxo_compared", "node_rejected_block", "reorg"}, 500, 20000);
+                    {"defect_cb_overpay", "defect_in_below_out", "halving_crossed", "utxo_compared", "node_rejected_block", "reorg"}, 1500, 40000);
 Engine g_c02 = Make("C02", "nodesim/chain-spend", GenBias<kC02>, RunC02,
                     kCommon + "C02 bias: spend defects (missing, already spent, created later in the block, duplicate input, double spend within a block, unspendable output); UTXO compared after every tip change.",
-                    {"defect_spent_input", "defect_later_in_block", "defect_dup_input", "defect_double_spend_in_block", "defect_spend_unspendable", "node_rejected_block", "utxo_compared"}, 500, 20000);
+                    {"defect_spent_input", "defect_later_in_block", "defect_dup_input", "defect_double_spend_in_block", "defect_spend_unspendable", "node_rejected_block", "utxo_compared"}, 1500, 40000);
 Engine g_c05 = Make("C05", "nodesim/chain-timelocks", GenBias<kC05>, RunC05,
                     kCommon + "C05 bias: nLockTime at height/MTP boundary and one short, BIP68 height/time locks exactly satisfied and one short (512 s granularity from the MTP of the block before the coin's), coinbase spends at depth 99/100, block time at MTP and MTP+1.",
                     {"defect_nonfinal_height", "defect_nonfinal_time", "defect_bip68_height", "defect_bip68_time", "defect_premature_coinbase", "boundary_locktime_height", "boundary_locktime_time",
-                     "boundary_bip68_height", "boundary_bip68_time", "boundary_coinbase_depth_100"}, 600, 25000);
+                     "boundary_bip68_height", "boundary_bip68_time", "boundary_coinbase_depth_100"}, 2000, 50000);
 Engine g_c09 = Make("C09", "nodesim/chain-utxo", GenBias<kC09>, RunC09,
                     kCommon + "C09 bias: 30-60% forks with transactions spending across fork points, invalidateblock-driven disconnects, forced flushes between connect and disconnect; UTXO set read through a CCoinsViewDB cursor and compared coin-for-coin (value, script, height, coinbase flag) with the model's UTXO(tip) after every tip change.",
-                    {"reorg", "reorg_depth_ge_3", "utxo_compared", "invalidateblock", "clean_restart"}, 500, 20000);
+                    {"reorg", "reorg_depth_ge_3", "utxo_compared", "invalidateblock", "clean_restart"}, 1500, 40000);
 
 SIM_REGISTER_ENGINE(g_c08);
 SIM_REGISTER_ENGINE(g_c01);
